@@ -838,6 +838,39 @@ def _l5(model, rep):
        "CompositeBasis.interpolate",
        "interpolate slices the vector differently from element_dofs/split",
        cls.methods["interpolate"].lineno)
+    # ---- split_indices / split_bases agree with split (both modes)
+    if "split_indices" in cls.methods and "split_bases" in cls.methods:
+        def harange(interp, nm, args, kwargs, node):
+            if nm == "numpy.arange":
+                a_ = [Poly.coerce(x) for x in args]
+                return ("range", Poly() if len(a_) == 1 else a_[0], a_[-1])
+            if nm == "numpy.cumsum":
+                out, tot = [], Poly()
+                for v in args[0]:
+                    tot = tot + Poly.coerce(v)
+                    out.append(tot)
+                return out
+            return hook(interp, nm, args, kwargs, node)
+        for shared in (False, True):
+            ob = Obj(cls, {"bases": bases, "equal_dofnum": shared,
+                           "_element_dofs": None, "_basis": None})
+            try:
+                si = Interp(model, call_hook=harange).call(
+                    cls.methods["split_indices"], [], {}, self_obj=ob)
+                sb = Interp(model, call_hook=harange).call(
+                    cls.methods["split_bases"], [], {}, self_obj=ob)
+            except (Unsupported, Raised) as e:
+                raise AnalysisError(f"CompositeBasis.split_indices: {e}")
+            want_si = [("range", Poly() if shared else prefix[k],
+                        Poly.sym(f"N{k}") if shared else prefix[k + 1])
+                       for k in range(K)]
+            okx = list(si) == want_si and list(sb) == list(bases)
+            _v(rep, L5, okx, f"CompositeBasis.split_indices"
+               f"[{'shared' if shared else 'concatenated'}]",
+               "index ranges of the components = the offsets of element_dofs",
+               path, "CompositeBasis.split_indices",
+               f"split_indices gives {si!r}", cls.methods[
+                   "split_indices"].lineno)
     # ---- the shared numbering (basis0 @ basis1: equal_dofnum=True): every
     # component reads and writes the *same* DOF vector - element_dofs adds
     # no offset, N is the common N, and split / interpolate hand every
@@ -1137,6 +1170,11 @@ _LOCS = """            self.doflocs = np.array([
 _AS = "skfem/assembly/__init__.py"
 _ADI = "skfem/autodiff/__init__.py"
 MUTANTS = [
+    ("composite basis index ranges ignore the shared numbering",
+     ("skfem/assembly/basis/composite_basis.py",
+      "            return [np.arange(basis.N, dtype=np.int32)\n"
+      "                    for basis in self.bases]\n", "            pass\n"),
+     "C19-L5"),
     ("composite elements keep a composite component as it is",
      ("skfem/element/element_composite.py",
       "            flat += list(e.elems) if isinstance(e, ElementComposite) "
